@@ -151,7 +151,8 @@ def ins_part(scratch, tier, seed, v, stats):
     for it in iters:
         for m in INSObserver.INS_STEPS:
             for when in (("before",) if tier == "quick" else ("before", "after")):
-                s = ins_spec("gauss2", seed * 100 + 31, 100, max_iteration=5)
+                s = ins_spec("gauss2", seed * 100 + 31, 100, max_iteration=5,
+                             **({} if tier == "quick" else {"min_iteration": 4}))   # (iteration 3 must exist)
                 s["signal_handling"] = True
                 s["signal_exit"] = 130 if n % 4 else 9
                 s["exit_code"] = s["signal_exit"]
